@@ -34,6 +34,8 @@ import (
 )
 
 type airTraceStats struct {
+	Restarts int
+	Replayed int
 	Ops      int
 	ByKind   map[string]int
 	Outcomes map[string]int
@@ -52,6 +54,8 @@ type airTrace struct {
 	tainted  map[string]bool
 	polys    map[string]map[int][]kyber.Scalar // round -> machine -> dealer coefficients
 	st       airTraceStats
+	// the last line written (operation, observation)
+	lastOp, lastOb string
 }
 
 func newAirTrace(ops, obs *bufio.Writer) *airTrace {
@@ -64,6 +68,23 @@ func (t *airTrace) emit(op, ob string) {
 	fmt.Fprintln(t.ops, op)
 	fmt.Fprintln(t.obs, ob)
 	t.st.Ops++
+	t.lastOp, t.lastOb = op, ob
+}
+
+// rebind: the machine was stopped and opened again from its database: the same machine to the model (`stop`)
+func (t *airTrace) rebind(old, reopened *airgapped.Machine) (int, bool) {
+	id, ok := t.machines[old]
+	if !ok {
+		return 0, false
+	}
+	delete(t.machines, old)
+	t.machines[reopened] = id
+	return id, true
+}
+
+func (t *airTrace) isTainted(m *airgapped.Machine, round string) bool {
+	id, ok := t.machines[m]
+	return ok && t.tainted[fmt.Sprintf("%d/%s", id, round)]
 }
 
 func (t *airTrace) flush() { t.ops.Flush(); t.obs.Flush() }
@@ -218,13 +239,13 @@ func (t *airTrace) record(c *cluster, n *vnode, cold types.Operation, rb []byte,
 	}
 	m := n.air
 	round := cold.DKGIdentifier
-	key := fmt.Sprintf("%p/%s", m, round)
+	mid := t.machineID(m)
+	key := fmt.Sprintf("%d/%s", mid, round)
 	if t.tainted[key] {
 		t.st.Skipped++
 		t.st.SkipWhy["round left alone after an earlier skip or refusal"]++
 		return
 	}
-	mid := t.machineID(m)
 	var res types.Operation
 	if procErr == nil {
 		if json.Unmarshal(rb, &res) != nil {
